@@ -1,6 +1,7 @@
 SPECIFICATION Spec
 CONSTANTS MaxA = 3 MaxB = 3 MaxFan = 2
   AsyncModes = {TRUE}
+  Repeats = FALSE Cuts = FALSE
 INVARIANT TypeOK
 INVARIANT UnselIdentityOrder
 INVARIANT SelIndependent
